@@ -22,7 +22,8 @@ RULE = (
     "x history of 1-3 compile calls with generated options (incl. lib/explicit feature writers with groupMarkClasses, contextual anchors); oracle = sha256 of "
     "the saved bytes of every returned font must be equal across (1) three worker processes with PYTHONHASHSEED 1/12345/987654 and the in-process seed 0, "
     "(2) ufoLib2 vs defcon built in memory and saved-with-one/reopened-with-the-other, (3) inplace=True on a private copy vs inplace=False, (4) every "
-    "call of a history on the same source objects vs the same call on freshly built sources. Non-trivial = >= 2 mark classes or >= 2 kerning groups "
+    "call of a history on the same source objects (equal options passed as the very same objects, incl. one filter instance serving several calls) vs the same call on freshly built sources, "
+    "(5) every list/dict/set bound at module or class level anywhere in ufo2ft has the same value before and after the case. Non-trivial = >= 2 mark classes or >= 2 kerning groups "
     "per side, and a history of >= 2 calls. Distinct = case hash."
 )
 ASSUMPTIONS = [
